@@ -395,7 +395,8 @@ func init() {
 	register(&vf.Check{
 		ID:        "C20",
 		Technique: "reference-model monitor (map sequence-number -> bytes + arrival order) over random push/pop/discard histories of SlotSequencer/SlotOffsetter on a real ByteBuffer; content compared before and after every Discard; checkptr build",
-		Rule: "cases = random histories (50-2000 steps) interleaving arrivals, Save+Push (in-order, out-of-order and duplicate sequence numbers, sizes 0-64) with Pop+Discard in random order, for maxSlots in {1,4,64} x maxBytes in {16,256,65536}, in a drain-to-empty regime and a never-empty regime (offsetter range limit reached), SlotSequencer and SlotOffsetter alone; " +
+		Rule: "one sequence number in 14 is at an end of the int range; arrivals also come through Reserve + ClaimFixed / Claim / ReadFrom with growing reserves; one history in 80 is a never-empty run of 14000 steps without forced resets; " +
+			"cases = random histories (50-2000 steps) interleaving arrivals, Save+Push (in-order, out-of-order and duplicate sequence numbers, sizes 0-64) with Pop+Discard in random order, for maxSlots in {1,4,64} x maxBytes in {16,256,65536}, in a drain-to-empty regime and a never-empty regime (offsetter range limit reached), SlotSequencer and SlotOffsetter alone; " +
 			"non-trivial = at least one pop that was not the oldest parked packet; distinct = (mode, capacities, push/pop shape)",
 		Assumptions: []string{
 			"a packet whose Push/Add is rejected is discarded by the caller as the newest saved slot (which shifts nothing)",
